@@ -829,7 +829,12 @@ pub fn process_request(input: &str, dbs: &Arc<Databases>, client: &mut Client) -
     );
     let db_name_state = client.selected_db_name();
     let start = Instant::now();
-    let request = match Request::parse(String::from(input).trim_matches('\n')) {
+    // (a line may end with CR LF: the CR is no more part of the command than the LF)
+    let request = match Request::parse(
+        String::from(input)
+            .trim_matches('\n')
+            .trim_end_matches('\r'),
+    ) {
         Ok(req) => req,
         Err(e) => return Response::Error { msg: e },
     };
